@@ -3,6 +3,9 @@
    Request (all integers):
      <side>.run bc target ppem scale composite nOut
                 nG (ox oy cx cy ux uy on)*nG   nT (ox oy cx cy)*nT   nE e*nE   nC c*nC   nOps (op imm)*nOps
+                [nPrep (op imm)*nPrep]
+   With a prep list the prep runs first (empty glyph zone, `bc` ignored) and the glyph program starts in
+   the state `startGlyph` derives from the prep's final state and the target.
    `target`: 0 mono, 1 normal, 2 light, 3 lcd, 4 vertical lcd (read by GETINFO only).
    Response: `x y on` of the first nOut glyph-zone points, or an error word. -/
 import FontVerif.Model.HintStep
@@ -51,10 +54,17 @@ def initial (bc target ppem scale composite : Int) (g t : List ZPt) (ends : List
     rmode := 0, rthr := 0, rph := 0, rper := 64,
     cutin := 68, sw := 0, swci := 0, md := 64, autoFlip := true,
     deltaBase := 9, deltaShift := 3, instructControl := 0, scanControl := false, scanType := target,
-    bc := bc ≠ 0, iupx := false, iupy := false, composite := composite ≠ 0,
+    bc := bc ≠ 0, iupx := false, iupy := false, composite := composite ≠ 0, inPrep := false,
     scale := scale, ppem := ppem, cvt := cvt, store := [] }
 
-def parse (xs : List Int) : Option (St × Nat × List (Int × Int)) :=
+structure Job where
+  st : St
+  nOut : Nat
+  ops : List (Int × Int)
+  prep : Option (List (Int × Int))
+  target : Int
+
+def parse (xs : List Int) : Option Job :=
   match xs with
   | bc :: target :: ppem :: scale :: composite :: nOut :: rest =>
     (counted 7 rest).bind fun (gs, rest) =>
@@ -62,15 +72,33 @@ def parse (xs : List Int) : Option (St × Nat × List (Int × Int)) :=
     (counted 1 rest).bind fun (es, rest) =>
     (counted 1 rest).bind fun (cs, rest) =>
     (counted 2 rest).bind fun (os, rest) =>
+    (if rest = [] then some (none, []) else (counted 2 rest).map fun (ps, r) => (some ps, r)).bind fun (ps, rest) =>
     if rest ≠ [] ∨ nOut < 0 then none else
     (gs.mapM mkG).bind fun g =>
     (ts.mapM mkT).bind fun t =>
     (es.mapM one).bind fun e =>
     (cs.mapM one).bind fun c =>
     (os.mapM mkOp).bind fun o =>
+    (match ps with | none => some none | some l => (l.mapM mkOp).map some).bind fun pr =>
     if e.any (· < 0) then none else
-    some (initial bc target ppem scale composite g t (e.map Int.toNat) c, nOut.toNat, o)
+    some ⟨initial bc target ppem scale composite g t (e.map Int.toNat) c, nOut.toNat, o, pr, target⟩
   | _ => none
+
+/-- prep (if any) then the glyph program, skrifa. -/
+def runSk (j : Job) : R St :=
+  match j.prep with
+  | none => HintStep.run j.ops j.st
+  | some pr => do
+    let p ← HintStep.run pr { j.st with glyph := [], ends := [], bc := false, inPrep := true }
+    HintStep.run j.ops (HintStep.startGlyph p (j.target ≠ 0) j.st.glyph j.st.ends)
+
+/-- prep (if any) then the glyph program, FreeType. -/
+def runFt (j : Job) : R St :=
+  match j.prep with
+  | none => FtStep.run j.ops j.st
+  | some pr => do
+    let p ← FtStep.run pr { j.st with glyph := [], ends := [], bc := false, inPrep := true }
+    FtStep.run j.ops (FtStep.startGlyph p (j.target ≠ 0) j.st.glyph j.st.ends)
 
 def render (n : Nat) (r : R St) : String :=
   match r with
@@ -103,9 +131,20 @@ def lockstep : Nat → List (Int × Int) → St → St → String
 
 def handle (cmd : String) (xs : List Int) : Option String :=
   match cmd with
-  | "rng.run" => (parse xs).map fun (s, _, ops) => lockstep 0 ops s s
-  | "sk.run" => (parse xs).map fun (s, n, ops) => render n (HintStep.run ops s)
-  | "ft.run" => (parse xs).map fun (s, n, ops) => render n (FtStep.run ops s)
+  | "rng.run" => (parse xs).map fun j =>
+      match j.prep with
+      | none => lockstep 0 j.ops j.st j.st
+      | some pr =>
+        let p0 := { j.st with glyph := [], ends := [], bc := false, inPrep := true }
+        match HintStep.run pr p0, FtStep.run pr p0 with
+        | .ok a, .ok b =>
+          if view a = view b then
+            lockstep 0 j.ops (HintStep.startGlyph a (j.target ≠ 0) j.st.glyph j.st.ends)
+              (FtStep.startGlyph b (j.target ≠ 0) j.st.glyph j.st.ends)
+          else "prep 0 0"
+        | _, _ => "prep 0 0"
+  | "sk.run" => (parse xs).map fun j => render j.nOut (runSk j)
+  | "ft.run" => (parse xs).map fun j => render j.nOut (runFt j)
   | _ => none
 
 end FontVerif.Drv.C03Prog
